@@ -124,34 +124,48 @@ claim("C09", "other",
       "override audit + cross-backend agreement of tabulated keyword tables", "DESIGN.md section 4, C09")
 
 claim("C10", "other",
-      "MIR dominator analysis of InsertStatement::values/select_from: every write to the statement (in particular every "
-      "write that stores rows or a SELECT source) is dominated by the equal edge of the comparison between columns.len() and "
-      "the length of the very value that is stored; the mismatch edge builds the error from those two lengths, unswapped; a "
-      "crate-wide who-may-write census shows no other code touches columns/source/default_values; history closure rule "
-      "(columns() after values()) reports the one known defect.",
-      "Structural, over all paths and all call histories of the listed API (the invariant is inductive); rendering of the "
-      "rows is covered by C07/C08. The comparison must have the form len == / != len, otherwise the check fails closed.",
-      "MIR dominators + operand-origin tracing + field-write census", "DESIGN.md section 4, C10")
+      "InsertStatement::values / select_from are interpreted on the complete length abstraction (columns 0..3 x row or "
+      "select width 0..3 x current source kind, 48 cells each): a row of another length is refused with "
+      "ColValNumMismatch{col_len, val_len}, unswapped, and nothing is touched; a matching row is appended in cell "
+      "order; a small-scope obligation shows that the code compares lengths only with each other. Outside the "
+      "interpreter's fragment the MIR dominator analysis decides (every write dominated by the equal edge of the "
+      "comparison of columns.len() with the length of the very value stored). A crate-wide who-may-write census shows "
+      "no other code touches columns/source/default_values; prepare_insert_statement is interpreted on statements of "
+      "1..3 rows of 1..3 marker cells (every row whole, in order, each cell through one renderer call on that very "
+      "cell); the history closure rule (columns() after values()) reports the one known defect.",
+      "Over all call histories of the listed API (the invariant is inductive). The length abstraction is complete "
+      "because the functions compare lengths only with each other (checked); rendering of the cells themselves is "
+      "covered by C07/C08.",
+      "abstract interpretation over the length abstraction + small-scope constant check; MIR dominators + field-write census", "DESIGN.md section 4, C10")
 
 claim("C11", "other",
-      "Path-effect summary of the CustomWithExpr substitution loop and of inject_parameters: every path through one iteration "
-      "is classified (token written back / doubled mark reduced to one / mark replaced by values[counter] with counter+1 / "
-      "mark+number replaced by values[n-1]); a path that consumes tokens and emits nothing or something else is reported. The "
-      "arm-selection table (token kind x mark x numbered x counter x value count) shows that a placeholder mark can never take "
-      "the verbatim path. The mark is placeholder() of the rendering backend; the constructors keep template and values in order.",
-      "How template text is split into tokens is C16. Not decided: inject_parameters(build(s)) == to_string(s) for every "
-      "statement (re-lexing of every literal form); out-of-range placeholders panic by design.",
-      "loop path-effect summaries + arm-selection table by abstract interpretation", "DESIGN.md section 4, C11")
+      "The CustomWithExpr arm (with whatever helper holds the loop) and inject_parameters are interpreted - their "
+      "extracted bodies, never the compiled crate - on every tape of abstract tokens of length <= 3 (<= 4 thorough) "
+      "over {mark, other punctuation, two numbers, a word, a quoted literal holding the mark, a space}, for the `?` and "
+      "`$n` styles, with exactly as many values as the tape designates and with spare ones; the text written is "
+      "compared with the property's own reading (mark -> designated value, doubled mark -> one mark, everything else "
+      "verbatim). A small-scope obligation shows that the code compares positions and counters only with constants "
+      "below the tape length. The cust_with_* constructors are interpreted on 0..3 opaque values. Code outside the "
+      "interpreter's fragment is decided by loop path summaries instead (fail closed).",
+      "How template text is split into tokens is C16. Not decided: inject_parameters(build(s)) == to_string(s) for "
+      "every statement (re-lexing of every literal form); out-of-range placeholders panic by design; a lone `$` on a "
+      "numbered backend is not specified by the property and not compared.",
+      "abstract interpretation of extracted HIR on all short token tapes + small-scope constant check; path summaries as fallback", "DESIGN.md section 4, C11")
 
 claim("C12", "other",
-      "Exhaustive over every From/Nullable/ValueType impl present in the all-features build (about 40 types), every tuple "
-      "arity 1..12 and every Value variant: variant pairing (one variant per type across From, null, try_from, array_type), "
-      "payload identity (only moves, boxing, deref and owned-copy conversions, or a reviewed foreign conversion, between the "
-      "argument and the payload and back), the Option<T> and Vec<T> wrappers, component order of tuples, diagonal as_null/"
-      "dummy_value. Identity data flow is value-independent, so this covers all values of each type.",
-      "Trusts the reviewed foreign conversions (uuid adapters, chrono fixed-offset rebuild) and Value equality (C18) used by "
-      "Option<T>::try_from; an impl of a shape the extractor does not recognise fails closed.",
-      "variant-pairing and dataflow census over rustc HIR (exhaustive over impls)", "DESIGN.md section 4, C12")
+      "Exhaustive over every From/Nullable/ValueType impl present in the all-features build (about 40 types), every "
+      "tuple arity 1..12 and every Value variant, by symbolic interpretation of the impl bodies: From<T>::from on a "
+      "symbolic atom x yields one Value variant holding Some(x), Nullable::null the None of the same variant, "
+      "ValueType::try_from gives back Ok(x) and refuses the NULL and the Some of every other variant (two probes per "
+      "variant); Option<T>, Vec<T> (element-type guard), tuples (components in index order, other arities refused) and "
+      "ValueTuple::into_iter likewise. Conversions between owned and borrowed forms of one value, a reviewed list of "
+      "foreign adapters and the per-element conversion of a generic T are the identity; any other call on the payload "
+      "is outside the fragment and the shape rules (variant pairing, identity-step census) decide instead. Symbolic "
+      "identity is value-independent, so this covers all values of each type.",
+      "Trusts the reviewed foreign conversions (uuid adapters, chrono fixed-offset rebuild) and Value equality (C18) "
+      "used by Option<T>::try_from; as_null / dummy_value are decided by their match shape; an impl neither "
+      "interpretable nor of a recognised shape fails closed.",
+      "symbolic interpretation of extracted HIR (exhaustive over impls and variants); variant-pairing census as fallback", "DESIGN.md section 4, C12")
 
 claim("C13", "other",
       "SQLite schema renderers: the complete ColumnType -> declared type table is extracted by abstract interpretation and "
@@ -171,13 +185,16 @@ claim("C14", "other",
       "type tables and separator tables by abstract interpretation; structural rules over the linked template IR", "DESIGN.md section 4, C14")
 
 claim("C15", "other",
-      "Proof-style over a finite obligation list: each of the 12 take(&mut self) functions returns a struct literal whose every "
-      "field is moved/copied from the same field of self (and, for query statements, left at Default so the remainder is "
-      "new()); Clone/PartialEq on the whole type closure of the statements are compiler-derived or reviewed; every such type is "
-      "Freeze and the shared identifier pointer is never mutated through; clear/reset functions write exactly one field.",
+      "Proof-style over a finite obligation list: each of the 12 take(&mut self) functions and each clear_* / reset_* "
+      "function is interpreted on a statement whose fields hold opaque markers (nested builders: structs of markers) - "
+      "the taken value holds field-wise what self held, query statements are left equal to their derived Default, a "
+      "clear function changes exactly its field, to the Default value; bodies outside the interpreter's fragment are "
+      "decided by their struct literal / MIR field writes. Clone/PartialEq on the whole type closure of the statements "
+      "are compiler-derived or reviewed; every such type is Freeze and the shared identifier pointer is never mutated "
+      "through.",
       "Equality of rendering follows from equality of fields because renderers read nothing but the statement (C02.R4). "
       "Derive expansions are trusted to be field-wise.",
-      "struct-literal/field-move census (HIR), derive census, trait-solver Freeze, MIR field-write census", "DESIGN.md section 4, C15")
+      "abstract interpretation on marker statements (HIR), derive census, trait-solver Freeze, MIR field-write census as fallback", "DESIGN.md section 4, C15")
 
 claim("C16", "other",
       "Structural termination and losslessness of the tokenizer for all inputs: on every path of every sub-lexer loop each "
@@ -192,34 +209,47 @@ claim("C16", "other",
       "path-effect pairing rules (HIR paths) + decision tables by abstract interpretation over character classes", "DESIGN.md section 4, C16")
 
 claim("C17", "proof",
-      "Proof by finite case analysis: the escape chain is one simultaneous per-character substitution h; the unescape loop is "
-      "tabulated as a finite-state transducer over all characters that occur in either function plus representatives of every "
-      "other character; from the plain state it maps h(c) to c and returns to the plain state for every class, hence "
-      "unescape(escape(s)) = s for all strings by induction. SQLite's pair is the quote-doubling pair (lemma). All impls of "
-      "EscapeBuilder in each configuration are enumerated.",
+      "Proof by finite case analysis: the escape function is one simultaneous per-character substitution h (extracted "
+      "as a replace chain or a stateless character loop); the unescape loop is tabulated as a finite-state transducer "
+      "over all characters that occur in either function plus representatives of every other character; from the plain "
+      "state it maps h(c) to c and returns to the plain state for every class, hence unescape(escape(s)) = s for all "
+      "strings by induction. SQLite's pair is the quote-doubling pair (lemma). All impls of EscapeBuilder in each "
+      "configuration are enumerated. When a body has neither of the extractable forms, both functions are interpreted "
+      "instead on every string of length <= 2 over that alphabet and of length 3 over one member of every class "
+      "(homomorphism, per-character inversion, round trip), with the small-scope obligation that no size constant "
+      "reaches the tabulated length; that fallback is bounded evidence, not the inductive proof.",
       "Trusts the documented semantics of str::replace and str::chars; the transducer is obtained by interpreting the "
-      "extracted loop body over the finite character classes (the code compares characters only against literals).",
-      "replace-chain + transducer extraction, per-character case split", "DESIGN.md section 4, C17")
+      "extracted loop body over the finite character classes (the code compares characters only against literals; the "
+      "loop must iterate over exactly param.chars()).",
+      "replace-chain + transducer extraction, per-character case split; interpreted strings as fallback", "DESIGN.md section 4, C17")
 
 claim("C18", "other",
-      "In the hashable-value configuration: Value::eq is a diagonal total match (one arm per enabled variant, wildcard false), "
-      "Value::hash feeds the discriminant first and has an arm per variant without wildcard, and per variant the comparator "
-      "and the hasher are a coherent pair over the same payload type (==/.hash on non-float payloads; OrderedFloat on both "
-      "sides for floats; the same JSON rendering; element-wise f32 pair for vectors); no raw float comparison or bit hashing.",
-      "Trusts Eq/Hash coherence of std, ordered_float and the optional third-party payload types. Reflexivity/symmetry/"
-      "transitivity then follow per variant from the payload's own Eq.",
-      "match-arm census + resolved comparator/hasher pairing (HIR, type-directed)", "DESIGN.md section 4, C18")
+      "In the hashable-value configuration Value::eq and Value::hash, with every helper they call, are interpreted on "
+      "values whose payloads are symbolic atoms: eq on every pair of variants (payload NULL / a) and on every pair of "
+      "payloads NULL / a / b of one variant, with every component of multi-field variants varied (4000+ rows), holds "
+      "exactly when variant and payload are the same, and is symmetric; every hash trace starts with the discriminant; "
+      "whenever eq holds the two hash traces are identical; what eq compares and what hash feeds are recorded with the "
+      "normal form they are wrapped in (OrderedFloat, serde_json::to_string, plain) and agree per variant, float "
+      "payloads never in plain form; no raw float comparison or bit hashing anywhere in the helpers. Outside the "
+      "interpreter's fragment the match-arm census and comparator/hasher pairing decide.",
+      "Trusts Eq/Hash coherence of std, ordered_float and the optional third-party payload types (one atomic step "
+      "each). Transitivity follows per variant from the payload's own Eq.",
+      "symbolic interpretation with normal-form traces (HIR); match-arm census + resolved comparator/hasher pairing as fallback", "DESIGN.md section 4, C18")
 
 claim("C19", "other",
-      "The derive macro is analysed as a program transformer: its validity predicate is tabulated over character classes "
-      "(accepted names are [A-Za-z0-9_]*, hence quote-free), the per-variant predicate over attribute kinds x names x container "
-      "names (it validates exactly the name the variant renders), the generated fast path is shown to be emitted only under "
-      "that guard (flag initialised true, updated only by &= for every variant), the name sources (heck snake_case / PascalCase, "
-      "`Table` -> container name, rename, method, enum_def prefix/suffix/table_name) are checked structurally, and every "
-      "derive(Iden) expansion in the repository's test target is cross-checked against an independent snake_case.",
+      "The derive macro is analysed as a program transformer: its validity predicate is tabulated over character "
+      "classes (accepted names are [A-Za-z0-9_]*, hence quote-free), the per-variant predicate over attribute kinds x "
+      "names x container names (it validates exactly the name the variant renders), the generated fast path is shown to "
+      "be emitted only on paths under that condition - directly or handed to a helper as the bool it branches on - "
+      "(flag initialised true, updated only by &= for every variant), the name sources (heck snake_case / PascalCase, "
+      "`Table` -> container name, rename, method, enum_def prefix/suffix) are checked structurally, the identifier "
+      "enum_def interpolates for `Table` is interpreted (backward slice of its definition) on type names including Rust "
+      "keywords with and without table_name, and every derive(Iden) expansion in the repository's test target is cross- "
+      "checked against an independent snake_case.",
       "Does not decide the transformation for all input programs beyond these guards and sources; heck is trusted (and "
-      "cross-checked on the in-repo expansions). Helper attributes are read from source text for the witness cross-check only.",
-      "decision tables by abstract interpretation + guard-placement rule on the macro's HIR + witness expansions", "DESIGN.md section 4, C19")
+      "cross-checked on the in-repo expansions). Helper attributes are read from source text for the witness cross- "
+      "check only.",
+      "decision tables by abstract interpretation + guard-provenance rule on the macro's HIR + sliced interpretation + witness expansions", "DESIGN.md section 4, C19")
 
 claim("C20", "proof",
       "Every reachable non-generic ADT and alias of the crate is Send and Sync in the thread-safe configuration; each "
